@@ -5,7 +5,7 @@ from vflib import gluechecks
 def run(tier, only=None):
     q = []
     # (the history starts from an arbitrary reachable offset / fitting state, so H counts the calls after that)
-    hs = [(1, 5), (1, 16), (2, 5)] if tier == "quick" else [(1, 5), (1, 16), (2, 3), (2, 5), (2, 16), (3, 5), (3, 8)]
+    hs = [(1, 5), (1, 16)] if tier == "quick" else [(1, 5), (1, 16), (2, 3), (2, 5), (2, 16), (3, 5), (3, 8)]
     for h, c in hs:
         q.append({"name": "c07.history.h%d.c%d" % (h, c), "cfile": "glue_c07.c",
                   "defs": ["-DMODE_C07", "-DH=%d" % h, "-DKMAX=2", "-DNPROG=%d" % (h + 1), "-DGBUF=56", "-DLMAX=13", "-DCMAX=64",
